@@ -220,6 +220,10 @@ func (c *descCtx) d(v ssa.Value) string {
 		return "phi(" + strings.Join(parts, " | ") + ")"
 	case *ssa.MakeClosure:
 		if fn, ok := x.Fn.(*ssa.Function); ok {
+			if g := thinMethodLiteral(fn); g != nil {
+				// func() { r.m() } is the method value r.m
+				return "closure:" + p.Name(g) + "$bound"
+			}
 			return "closure:" + p.Name(fn)
 		}
 		return "closure:?"
@@ -699,4 +703,38 @@ func (p *Program) fnShort(f *ssa.Function) string {
 		return n
 	}
 	return f.Name()
+}
+
+// thinMethodLiteral recognises func() { x.m() } – a literal without
+// parameters whose body is one call of a method on a captured variable with no
+// further arguments – and returns m.
+func thinMethodLiteral(fn *ssa.Function) *ssa.Function {
+	if fn == nil || fn.Parent() == nil || len(fn.Blocks) != 1 || len(fn.Params) != 0 || fn.Signature.Results().Len() != 0 {
+		return nil
+	}
+	var g *ssa.Function
+	n := 0
+	for _, in := range fn.Blocks[0].Instrs {
+		switch x := in.(type) {
+		case *ssa.Call:
+			n++
+			g = x.Common().StaticCallee()
+			if g == nil || g.Signature.Recv() == nil || len(x.Common().Args) != 1 {
+				return nil
+			}
+			a := x.Common().Args[0]
+			if u, ok := a.(*ssa.UnOp); ok {
+				a = u.X
+			}
+			if _, ok := a.(*ssa.FreeVar); !ok {
+				return nil
+			}
+		case *ssa.Store, *ssa.Send, *ssa.Go, *ssa.Defer, *ssa.MapUpdate, *ssa.Select, *ssa.Panic:
+			return nil
+		}
+	}
+	if n != 1 {
+		return nil
+	}
+	return g
 }
